@@ -2,7 +2,7 @@
    `exact`, so it is checked to be convertible with it); proofs in RcP.v (strong side) and RcWeakP.v (weak side) *)
 From Coq Require Import ZArith List Bool Lia Arith.
 Import ListNotations.
-Require Import Params StateW DisposeW Rc RcSpec RcP RcWeakP.
+Require Import Params StateW DisposeW ModularW RcSnapCheck RcSnapP RcSnapInvP RcWSnapInvP Rc RcSpec RcP RcWeakP.
 Local Open Scope Z_scope.
 
 Theorem C04_at_most_once_in_order :
@@ -22,4 +22,24 @@ Theorem C04_flags_final :
        tde_ok s -> counted_ok s -> bounded s -> bounded s' -> micro s t rec = Some (s', o) -> flags_mono s s'.
 Proof. exact RcP.micro_flags_mono. Qed.
 Print Assumptions C04_flags_final.
+
+
+(* ---- FINAL FORM (RcWSnapInvP.v): the same statements under run_ok only - fresh start, well-formed programs
+   (cellops_ok, bounded_run) and the run hypotheses H2 pinned / H3 scoped, wscoped / epoch < 2^62; the former hypothesis
+   live_counted (scounted_ok, wcounted_ok = finding F5, wlive_ok) is now a THEOREM (C02_count_hypotheses_discharged) *)
+Theorem C04_final :
+  forall (s0 : state) (sched : list (nat * list Z)) (t : nat) (rec : list Z) (s' : state) (obs : list Z),
+       run_ok s0 sched ->
+       let s := mrun s0 sched in
+       micro s t rec = Some (s', obs) ->
+       forall (o : nat) (ob ob' : obj),
+       geto s o = Some ob ->
+       geto s' o = Some ob' ->
+       (dropped ob = true -> dropped ob' = true) /\
+       (freed ob = true -> freed ob' = true) /\
+       (dropped ob = false ->
+        dropped ob' = true -> In 1102 obs /\ destructed (word ob) = true /\ freed ob = false) /\
+       (freed ob = false -> freed ob' = true -> In 1100 obs /\ dropped ob = true).
+Proof. exact RcWSnapInvP.C04_final. Qed.
+Print Assumptions C04_final.
 
